@@ -43,20 +43,29 @@ FORBIDDEN = re.compile(
 
 
 def sh(cmd, timeout=600, cwd=None, env=None, inp=None):
-    """Run a command; returns (rc, stdout+stderr) with conda noise removed."""
+    """Run a command; returns (rc, stdout+stderr) with conda noise removed.
+    The command runs in its own process group, which is killed as a whole on timeout
+    (a timed-out `make` must not leave a coqc behind that keeps the build lock busy)."""
+    import signal
     e = dict(os.environ)
     if env:
         e.update(env)
+    p = subprocess.Popen(cmd, shell=isinstance(cmd, str), cwd=cwd, env=e,
+                         stdin=subprocess.PIPE if inp is not None else None,
+                         stdout=subprocess.PIPE, stderr=subprocess.STDOUT, text=True, start_new_session=True)
     try:
-        p = subprocess.run(cmd, shell=isinstance(cmd, str), cwd=cwd, env=e, input=inp,
-                           stdout=subprocess.PIPE, stderr=subprocess.STDOUT, timeout=timeout,
-                           text=True)
-        out, rc = p.stdout, p.returncode
-    except subprocess.TimeoutExpired as ex:
-        out = (ex.stdout or "")
-        if isinstance(out, bytes):
-            out = out.decode("utf-8", "replace")
-        out += "\n<<timeout after %ss>>" % timeout
+        out, _ = p.communicate(inp, timeout=timeout)
+        rc = p.returncode
+    except subprocess.TimeoutExpired:
+        try:
+            os.killpg(p.pid, signal.SIGKILL)
+        except Exception:  # noqa
+            pass
+        try:
+            out, _ = p.communicate(timeout=10)
+        except Exception:  # noqa
+            out = ""
+        out = (out or "") + "\n<<timeout after %ss>>" % timeout
         rc = 124
     out = "\n".join(l for l in out.splitlines() if "WARNING conda" not in l)
     return rc, out
